@@ -33,7 +33,19 @@ Definition copy_call (f : vfn) (dims idxs : list Z) : result :=
 Definition copy_model := model_call_of "Array index out of bounds in struct member access" "Dimension mismatch in struct member array access".
 Definition copies : list (string * vfn) :=
   [("get_typed", fn_get_typed_flat); ("set_int", fn_set_int_flat); ("set_double", fn_set_double_flat);
-   ("get_string", fn_get_string_flat); ("set_string", fn_set_string_flat); ("member_read", fn_member_read_flat)].
+   ("get_string", fn_get_string_flat); ("set_string", fn_set_string_flat); ("member_read", fn_member_read_flat);
+   ("float_read", fn_float_read_flat)].
+(* the float / double / quad read path (evaluator.cpp) has no test of the number of subscripts and one text for every
+   rejection: compared with the model on the leading dimensions (Properties_C05_cxx.generated_float_read_any_rank_is_model;
+   fewer subscripts than dimensions = known finding C05-float-array-read-fewer-subscripts-accepted, not listed again); its loop
+   runs over the subscripts *)
+Definition float_call (dims idxs : list Z) : result :=
+  run_vec (S (List.length idxs)) fn_float_read_flat "" (vargs_copy fn_float_read_flat dims idxs) [].
+Definition float_model (dims idxs : list Z) : result :=
+  match Model.calc_flat (firstn (List.length idxs) dims) idxs with
+  | Some k => RVal (TInt, k)
+  | None => RThrow "Array index out of bounds"
+  end.
 (* StructOperations names the dimension in its messages: only value / rejection are compared there *)
 Definition no_text (r : result) : result := match r with RThrow _ => RThrow "" | r => r end.
 
@@ -95,4 +107,5 @@ Definition search (n : nat) : Z * list bad_item := search_in gen_call model_call
 Definition search_copies (n : nat) : list (string * (Z * list bad_item)) :=
   map (fun p => (fst p, if String.eqb (fst p) "member_read"
                         then search_in (fun d i => no_text (copy_call (snd p) d i)) (fun d i => no_text (copy_model d i)) 2 3 n
+                        else if String.eqb (fst p) "float_read" then search_in float_call float_model 2 3 n
                         else search_in (copy_call (snd p)) copy_model 2 3 n)) copies.
